@@ -34,6 +34,8 @@ structure Doc where
   version : String
   servers : List String
   schemes : List String
+  /-- every string found under a `type` key of a schema (components and operations) -/
+  schemaTypes : List String := []
 deriving Repr
 
 /-- the `{name}` expressions of a path template (they may sit inside a segment: `/files/{name}.json`) -/
@@ -50,6 +52,8 @@ def templateParams (p : String) : List String := templateParamsAux none p.toList
 def kindOfType (t : String) : String :=
   if t = "integer" || t = "number" then "number" else if t = "boolean" then "boolean" else "string"
 
+def jsonSchemaTypes : List String := ["string", "number", "integer", "boolean", "array", "object", "null"]
+
 structure WellFormed (d : Doc) (cfgTitle cfgVersion : String) (cfgServers cfgSchemes : List String) : Prop where
   refsClosed : ∀ op ∈ d.ops, ∀ r ∈ op.refs, r ∈ d.components
   componentRefsClosed : ∀ r ∈ d.componentRefs, r ∈ d.components
@@ -63,6 +67,8 @@ structure WellFormed (d : Doc) (cfgTitle cfgVersion : String) (cfgServers cfgSch
   info : d.title = cfgTitle ∧ d.version = cfgVersion
   servers : d.servers = cfgServers
   schemes : ∀ s, s ∈ d.schemes ↔ s ∈ cfgSchemes
+  /-- every schema type is one of the JSON Schema types (a document that says `type: date-time` is no OpenAPI document) -/
+  typesKnown : ∀ t ∈ d.schemaTypes, t ∈ jsonSchemaTypes
 
 /-- the decidable checker run on the implementation's documents; returns the violated clauses -/
 def check (d : Doc) (cfgTitle cfgVersion : String) (cfgServers cfgSchemes : List String) : List String :=
@@ -77,6 +83,7 @@ def check (d : Doc) (cfgTitle cfgVersion : String) (cfgServers cfgSchemes : List
   (if d.enums.all fun e => e.memberKinds.all (· = kindOfType e.type) then [] else ["enum-values-typed"]) ++
   (if d.title = cfgTitle && d.version = cfgVersion then [] else ["info"]) ++
   (if d.servers = cfgServers then [] else ["servers"]) ++
-  (if d.schemes.all cfgSchemes.contains && cfgSchemes.all d.schemes.contains then [] else ["security-schemes"])
+  (if d.schemes.all cfgSchemes.contains && cfgSchemes.all d.schemes.contains then [] else ["security-schemes"]) ++
+  (if d.schemaTypes.all jsonSchemaTypes.contains then [] else ["schema-types"])
 
 end Gleece.Doc
